@@ -73,6 +73,42 @@ theorem wcasRow_coh (k : String) (exp cas : Nat) (v : Option String) (o : WOpts)
             · cases hw
           · cases hw
 
+/-- What `WriteCas` stores besides the body: the flag follows the value, and a tombstone's xattrs are dropped. -/
+theorem wcasRow_shape (k : String) (exp cas : Nat) (v : Option String) (o : WOpts) (nc now : Nat) (old : Option Row)
+    (r' : Row) (ev : Option Event) (out : Out) (h : wcasRow k exp cas v o nc now old = .inr (some r', ev, out)) :
+    r'.tomb = v.isNone ∧ ∀ r, old = some r → r.tomb = true → r'.xattrs = [] := by
+  unfold wcasRow at h
+  split at h
+  · cases h
+  · simp only at h
+    split at h
+    · split at h
+      · cases h
+      · split at h
+        · cases h
+        · split at h <;> cases h
+    · rename_i r'' hw
+      cases h
+      split at hw
+      · split at hw
+        · split at hw
+          · split at hw
+            · cases hw; exact ⟨rfl, fun r hr ht => by cases hr; simp [ht]⟩
+            · cases hw
+          · cases hw
+        · cases hw
+      · split at hw
+        · split at hw
+          · cases hw; exact ⟨rfl, fun r hr _ => by cases hr⟩
+          · split at hw
+            · cases hw; exact ⟨rfl, fun r hr ht => rfl⟩
+            · cases hw
+        · split at hw
+          · split at hw
+            · cases hw; exact ⟨rfl, fun r hr ht => by cases hr; simp [ht]⟩
+            · cases hw
+          · cases hw
+
 theorem removeRow_coh (k : String) (ifCas : Option Nat) : (removeRow k ifCas).Establishes RowCoh := by
   intro nc now old r' ev o _ h n
   unfold removeRow at h
@@ -148,19 +184,20 @@ namespace Rosmar
 
 /-- Tombstone coherence is a row invariant of every write entry point. -/
 theorem rowCoh_invariant : RowInvariant RowCoh where
-  add := addRow_coh
-  set := setRow_coh
-  incr := incrRow_coh
-  wcas := wcasRow_coh
-  remove := removeRow_coh
-  touch := touchRow_coh
-  wwx := wwxRow_coh
-  delx := delxRow_coh
-  dsp := dspRow_coh
+  fam :=
+    { add := addRow_coh
+      set := setRow_coh
+      incr := incrRow_coh
+      wcas := wcasRow_coh
+      remove := removeRow_coh
+      touch := fun _ => touchRow_coh
+      wwx := wwxRow_coh
+      delx := delxRow_coh
+      dsp := dspRow_coh }
   wmeta := wmetaRow_coh
 
 /-- Every reachable state is coherent: induction over any operation list. -/
 theorem run_coh (ops : List Op) (hwf : ∀ op ∈ ops, op.WF) : StateAll RowCoh (run initState ops).1 :=
-  run_inv rowCoh_invariant ops initState hwf (initState_inv RowCoh)
+  run_inv rowCoh_invariant.step ops initState hwf (initState_stateAll RowCoh)
 
 end Rosmar
